@@ -81,6 +81,7 @@ class Tracer:
         self.fault_exc = None
         self.nlow = 0
         self.execs = []
+        self.guard = None      # callable(tracer, event, paths): may raise to block the call
         self.ignore_prefixes = ("/dev/", "/proc/")
 
     # ---- low level
@@ -89,7 +90,14 @@ class Tracer:
         self.nlow += 1
         enclosing = self.stack[-1] if self.stack else None
         for p in paths:
-            self.low.append((enclosing[3] if enclosing else None, event, p))
+            self.low.append((enclosing[3] if enclosing else -1 - k, event, p, k))
+        if self.guard is not None:
+            try:
+                self.guard(self, event, paths)
+            except PermissionError:
+                for p in paths:
+                    self.ops.append(("Blocked:" + event, p))
+                raise
         if enclosing is None:
             kind = {"open": "Write", "os.mkdir": "MkDir", "os.remove": "Unlink", "os.rmdir": "RmDir",
                     "os.rename": "Rename", "os.utime": "Touch", "exec-dot": "Write"}.get(event, "Other:" + event)
